@@ -103,6 +103,22 @@ Fixpoint body_ok (fuel : nat) (e : env) (g : term) : bool :=
       end
   end.
 
+(** ISO 7.6.2: a term is converted to a goal when call/1 (or a clause) takes it:
+    the control constructs , ; -> are traversed, a variable in goal position
+    becomes call(V); nothing is re-interpreted later *)
+Fixpoint convert (fuel : nat) (e : env) (g : term) : term :=
+  match fuel with
+  | O => g
+  | S f =>
+      match resolve e g with
+      | Var v => Cmp "call" [Var v]
+      | Cmp "," [a; b] => Cmp "," [convert f e a; convert f e b]
+      | Cmp ";" [a; b] => Cmp ";" [convert f e a; convert f e b]
+      | Cmp "->" [a; b] => Cmp "->" [convert f e a; convert f e b]
+      | r => r
+      end
+  end.
+
 Section Solve.
 
 (** deterministic built-ins shared with M: type tests, =, compare, is, comparisons,
@@ -437,7 +453,7 @@ with opaque (fuel : nat) (g : term) (e : env) (k : K) (st : sstate) {struct fuel
           if negb (body_ok UFUEL e g') then (ORaise (type_err "callable" (walk e g')), st)
           else
             let '(bid, st0) := ss_fresh_id st in
-            match solve f g' e bid k st0 with
+            match solve f (convert UFUEL e g') e bid k st0 with
             | (OCut c, st1) => if Z.eqb c bid then (OFail, st1) else (OCut c, st1)
             | r => r
             end
@@ -525,6 +541,7 @@ with add_clause (fuel : nat) (front : bool) (t : term) (e : env) (k : K) (st : s
                   if negb (sp_dynamic p) then (ORaise (perm_err "modify" "static_procedure" (pi_t fn (Z.of_nat ar))), st)
                   else
                     let '(id, st1) := ss_fresh_id st in
+                    let c := Cmp ":-" [h; convert UFUEL empty_env body] in
                     let cs := if front then (id, c) :: sp_clauses p else sp_clauses p ++ [(id, c)] in
                     let db' := match ss_find (ss_db st1) fn ar with
                                | Some _ => ss_update (ss_db st1) (mkSProc fn ar true cs)
@@ -548,8 +565,9 @@ Definition top_k : K := fun e st =>
 Definition s_add_term (dynamic : bool) (acc : list sproc * Z) (t : term) : list sproc * Z :=
   let '(db, id) := acc in
   match rulify empty_env t with
-  | Cmp ":-" [h; _] =>
+  | Cmp ":-" [h; body] =>
       let '(fn, ar) := match h with Atom a => (a, O) | Cmp g xs => (g, List.length xs) | _ => ("", O) end in
+      let t := Cmp ":-" [h; convert UFUEL empty_env body] in
       match ss_find db fn ar with
       | Some p => (ss_update db (mkSProc fn ar (sp_dynamic p) (sp_clauses p ++ [(id, t)])), id + 1)
       | None => (db ++ [mkSProc fn ar dynamic [(id, t)]], id + 1)
